@@ -394,7 +394,7 @@ type Spec[C any] struct {
 func Safe(f func() error) (err error) {
 	defer func() {
 		if r := recover(); r != nil {
-			err = fmt.Errorf("panic: %v\n%s", r, truncate(string(debug.Stack()), 3000))
+			err = fmt.Errorf("panic: %v\n%s", r, truncate(string(debug.Stack()), 1400))
 		}
 	}()
 	return f()
@@ -627,7 +627,7 @@ func JoinErr(msgs []string) error {
 // statistics are flushed.
 func Recover(t *testing.T) {
 	if r := recover(); r != nil {
-		Inconclusive(fmt.Sprintf("harness panic: %v\n%s", r, truncate(string(debug.Stack()), 3000)))
+		Inconclusive(fmt.Sprintf("harness panic: %v\n%s", r, truncate(string(debug.Stack()), 1400)))
 		t.Errorf("harness panic: %v", r)
 	}
 }
